@@ -386,6 +386,7 @@ var BadPatternContexts = []string{
 // and compares with Go's regexp used directly.
 func (m *cacheModel) opRegex(step int, st scn.Step, owner int32) string {
 	x := m.x
+	st.K, st.S, st.R = scn.Raw(st.K), scn.Raw(st.S), scn.Raw(st.R)
 	if !quotable(st.K, st.S, st.R) || (st.Src == "concat" && !quotable(st.K[:len(st.K)/2], st.K[len(st.K)/2:])) {
 		return "unquotable"
 	}
@@ -599,7 +600,18 @@ func (m *cacheModel) opPerNode(step int, st scn.Step) string {
 		text = "matches(@k, string(@p))" // (a node-set where the pattern belongs is refused by the engine: outside the statement)
 	}
 	constRe, cerr := regexp.Compile(st.K)
-	ex, co := compile(text)
+	// compiled once per run and text: repeated pernode steps (warm-up) go on
+	// using the same compiled expression, as a long-lived caller does
+	if x.perNode == nil {
+		x.perNode = map[string]*xpath.Expr{}
+	}
+	ex, co := x.perNode[text], Outcome{}
+	if ex == nil {
+		ex, co = compile(text)
+		if ex != nil {
+			x.perNode[text] = ex
+		}
+	}
 	v := st.N % 7
 	if ex == nil {
 		if cerr != nil && v != 2 && v != 4 && co.Kind == "cerr" {
@@ -648,6 +660,14 @@ func (m *cacheModel) opPerNode(step int, st scn.Step) string {
 			}
 			x.viol(kind, kind+":regex", fmt.Sprintf("Evaluate(%q) from node %d: %s", text, n.ID, got.Key()), step)
 			return "abort"
+		}
+		if x.sim.mode == 'H' && x.sim.locks.anyHeld() {
+			// this evaluation ended (by a panic the caller recovered from) with a lock of
+			// the package still held: the next one would block for ever. Same verdict
+			// as at the end of an operation; do not touch the package again.
+			x.stop = true
+			x.viol("deadlock", "deadlock:lock-held-after-operation", fmt.Sprintf("Evaluate(%q) from node %d ended (%s) and left a lock of the package held: every later call that needs it blocks for ever", text, n.ID, clip(got.Key())), step)
+			return "lock-held"
 		}
 		// this node's operands
 		re, rerr := constRe, cerr
